@@ -986,5 +986,598 @@ theorem ringIntersectsSegment_sim {d : Pt} {r r' : Ring} (h : RingSim k d r r') 
 
 end
 
+/-! ### ring × ring, ring × line -/
+
+section
+variable {k : Rat} (hk : 0 < k)
+include hk
+
+omit hk in
+theorem all_range_congr (n : Nat) (f g : Nat → Bool) (h : ∀ i, i < n → f i = g i) :
+    (List.range n).all f = (List.range n).all g := by
+  rw [Bool.eq_iff_iff, List.all_eq_true, List.all_eq_true]
+  constructor <;> intro hx i hi
+  · rw [← h i (List.mem_range.1 hi)]; exact hx i hi
+  · rw [h i (List.mem_range.1 hi)]; exact hx i hi
+
+omit hk in
+theorem any_range_congr (n : Nat) (f g : Nat → Bool) (h : ∀ i, i < n → f i = g i) :
+    (List.range n).any f = (List.range n).any g := by
+  rw [Bool.eq_iff_iff, List.any_eq_true, List.any_eq_true]
+  constructor <;> rintro ⟨i, hi, hx⟩
+  · exact ⟨i, hi, by rw [← h i (List.mem_range.1 hi)]; exact hx⟩
+  · exact ⟨i, hi, by rw [h i (List.mem_range.1 hi)]; exact hx⟩
+
+theorem ringContainsRingBody_sim {d : Pt} {r r' o o' : Ring} (h : RingSim k d r r')
+    (ho : RingSim k d o o') (he : r.empty = false) (heo : o.empty = false) (b : Bool) :
+    ringContainsRingBody r' o' b = ringContainsRingBody r o b := by
+  unfold ringContainsRingBody
+  rw [h.rect he, ho.rect heo, show (Box.aff k d r.rect).containsBox (Box.aff k d o.rect)
+    = r.rect.containsBox o.rect from containsBox_aff hk d _ _, h.convex, ho.npts, ho.nseg]
+  rw [all_range_congr o.numPoints _ (fun i => (ringContainsPoint r (o.pointAt i) b).hit)
+      (fun i hi => by rw [ho.pt i hi, ringContainsPoint_sim hk h]),
+    all_range_congr o.numSegments _ (fun i => ringContainsSegment r (o.segmentAt i) b)
+      (fun i hi => by rw [ho.seg i hi, ringContainsSegment_sim hk h])]
+
+theorem ringContainsRing_sim {d : Pt} {r r' o o' : Ring} (h : RingSim k d r r')
+    (ho : RingSim k d o o') (b : Bool) :
+    ringContainsRing r' o' b = ringContainsRing r o b := by
+  unfold ringContainsRing
+  rw [h.empty, ho.empty, ho.npts]
+  cases he : r.empty with
+  | true => simp only [Bool.true_or, if_true]
+  | false =>
+    cases heo : o.empty with
+    | true => simp only [Bool.or_true, if_true]
+    | false =>
+      rw [ringContainsRingBody_sim hk h ho he heo, ho.rect heo,
+        ringContainsRingBody_sim hk h (ringSim_bx d o.rect) he rfl]
+
+theorem ringIntersectsRing_sim {d : Pt} {r r' o o' : Ring} (h : RingSim k d r r')
+    (ho : RingSim k d o o') (b : Bool) :
+    ringIntersectsRing r' o' b = ringIntersectsRing r o b := by
+  unfold ringIntersectsRing
+  rw [h.empty, ho.empty]
+  cases he : r.empty with
+  | true => simp only [Bool.true_or, if_true]
+  | false =>
+    cases heo : o.empty with
+    | true => simp only [Bool.or_true, if_true]
+    | false =>
+      rw [h.rect he, ho.rect heo, show (Box.aff k d r.rect).intersects (Box.aff k d o.rect)
+        = r.rect.intersects o.rect from intersects_aff hk d _ _]
+      have ha : ((Box.aff k d o.rect).area > (Box.aff k d r.rect).area) ↔ (o.rect.area > r.rect.area) :=
+        area_gt_aff hk d _ _
+      by_cases hg : o.rect.area > r.rect.area
+      · simp only [ha, hg, if_true, Bool.or_self, Bool.false_eq_true, if_false]
+        rw [h.nseg, any_range_congr r.numSegments _ (fun i => ringIntersectsSegment o (r.segmentAt i) b)
+          (fun i hi => by rw [h.seg i hi, ringIntersectsSegment_sim hk ho])]
+      · simp only [ha, hg, if_false, Bool.or_self, Bool.false_eq_true]
+        rw [ho.nseg, any_range_congr o.numSegments _ (fun i => ringIntersectsSegment r (o.segmentAt i) b)
+          (fun i hi => by rw [ho.seg i hi, ringIntersectsSegment_sim hk h])]
+
+/-- two series related as rings -/
+abbrev SerSim (k : Rat) (d : Pt) (s s' : Series) : Prop := RingSim k d (.ser s) (.ser s')
+
+theorem ringContainsLine_sim {d : Pt} {r r' : Ring} {l l' : Line} (h : RingSim k d r r')
+    (hl : SerSim k d l l') (b : Bool) : ringContainsLine r' l' b = ringContainsLine r l b :=
+  ringContainsRing_sim hk h hl b
+
+theorem ringIntersectsLine_sim {d : Pt} {r r' : Ring} {l l' : Line} (h : RingSim k d r r')
+    (hl : SerSim k d l l') (b : Bool) : ringIntersectsLine r' l' b = ringIntersectsLine r l b := by
+  unfold ringIntersectsLine
+  have hle : l'.empty = l.empty := hl.empty
+  have hnp : l'.numPoints = l.numPoints := hl.npts
+  have hns : l'.numSegments = l.numSegments := hl.nseg
+  rw [h.empty, hle]
+  cases he : r.empty with
+  | true => simp only [Bool.true_or, if_true]
+  | false =>
+    cases heo : l.empty with
+    | true => simp only [Bool.or_true, if_true]
+    | false =>
+      have hlr : l'.rect = Box.aff k d l.rect := hl.rect heo
+      rw [h.rect he, hlr, show (Box.aff k d r.rect).intersects (Box.aff k d l.rect)
+        = r.rect.intersects l.rect from intersects_aff hk d _ _, hnp, hns]
+      rw [any_range_congr l.numPoints _ (fun i => (ringContainsPoint r l.pts[i]! b).hit)
+          (fun i hi => by
+            have : l'.pts[i]! = Pt.aff k d l.pts[i]! := hl.pt i hi
+            rw [this, ringContainsPoint_sim hk h]),
+        any_range_congr l.numSegments _ (fun i => ringIntersectsSegment r (l.segmentAt i) b)
+          (fun i hi => by
+            have : l'.segmentAt i = Seg.aff k d (l.segmentAt i) := hl.seg i hi
+            rw [this, ringIntersectsSegment_sim hk h])]
+
+end
+
+/-! ### lines -/
+
+theorem find?_congr' {α : Type} (p q : α → Bool) (l : List α) (h : ∀ x ∈ l, p x = q x) :
+    l.find? p = l.find? q := by
+  induction l with
+  | nil => rfl
+  | cons x l ih =>
+    simp only [List.find?_cons, h x (by simp)]
+    rw [ih (fun y hy => h y (by simp [hy]))]
+
+theorem line_containsPoint_eq (l : Line) (p : Pt) :
+    l.containsPoint p = (Ring.ser l).search p.box (fun (st : Bool) seg _ =>
+      if (seg.raycast p).on then (true, false) else (st, true)) false := rfl
+
+section
+variable {k : Rat} (hk : 0 < k)
+include hk
+
+theorem line_containsPoint_sim {d : Pt} {l l' : Line} (hl : SerSim k d l l') (p : Pt) :
+    l'.containsPoint (Pt.aff k d p) = l.containsPoint p := by
+  rw [line_containsPoint_eq, line_containsPoint_eq]
+  rw [show (Pt.aff k d p).box = Box.aff k d p.box from rfl]
+  apply search_sim hk hl
+  intro i _ st
+  rw [raycast_seg_aff hk]
+
+theorem containsSeg_seg_aff (d : Pt) (s o : Seg) :
+    (Seg.aff k d s).containsSeg (Seg.aff k d o) = s.containsSeg o := containsSeg_aff hk d s o
+
+theorem walkStep_sim {d : Pt} {l l' o o' : Line} (hl : SerSim k d l l') (ho : SerSim k d o o')
+    (n : Nat) (st : WalkSt) (hs : st.segIdx < l.numSegments) (hi : st.i < o.numSegments) :
+    walkStep l' o' n st = walkStep l o n st := by
+  have e1 : l'.segmentAt st.segIdx = Seg.aff k d (l.segmentAt st.segIdx) := hl.seg _ hs
+  have e2 : o'.segmentAt st.i = Seg.aff k d (o.segmentAt st.i) := ho.seg _ hi
+  unfold walkStep
+  simp only [e1, e2, containsSeg_seg_aff hk]
+  simp only [Seg.aff, aff_inj hk]
+
+theorem walk_sim {d : Pt} {l l' o o' : Line} (hl : SerSim k d l l') (ho : SerSim k d o o') :
+    ∀ (fuel : Nat) (st : WalkSt), st.segIdx < l.numSegments →
+      walk l' o' l.numSegments o.numSegments fuel st = walk l o l.numSegments o.numSegments fuel st := by
+  intro fuel
+  induction fuel with
+  | zero => intro st _; rfl
+  | succ fuel ih =>
+    intro st hs
+    rw [walk, walk]
+    by_cases hi : st.i < o.numSegments
+    · rw [if_pos hi, if_pos hi, walkStep_sim hk hl ho _ st hs hi]
+      rcases walkStep_spec l o l.numSegments st hs with ⟨b, hb⟩ | ⟨hnone, hcase⟩
+      · rcases hw : walkStep l o l.numSegments st with ⟨st', r⟩
+        rw [hw] at hb
+        simp only at hb
+        subst hb
+        rfl
+      · rcases hw : walkStep l o l.numSegments st with ⟨st', r⟩
+        rw [hw] at hnone hcase
+        simp only at hnone hcase
+        subst hnone
+        simp only
+        apply ih
+        rcases hcase with ⟨-, -, e3⟩ | ⟨-, e2, -⟩
+        · rw [e3]; exact hs
+        · exact e2
+    · rw [if_neg hi, if_neg hi]
+
+theorem line_containsLineO_sim {d : Pt} {l l' o o' : Line} (hl : SerSim k d l l')
+    (ho : SerSim k d o o') : l'.containsLineO o' = l.containsLineO o := by
+  have hle : l'.empty = l.empty := hl.empty
+  have hoe : o'.empty = o.empty := ho.empty
+  have hln : l'.numSegments = l.numSegments := hl.nseg
+  have hon : o'.numSegments = o.numSegments := ho.nseg
+  unfold Line.containsLineO
+  rw [hle, hoe, hln, hon]
+  cases he : l.empty with
+  | true => simp only [Bool.true_or, if_true]
+  | false =>
+    cases heo : o.empty with
+    | true => simp only [Bool.or_true, if_true]
+    | false =>
+      simp only [Bool.or_self, Bool.false_eq_true, if_false]
+      have h0 : 0 < o.numSegments := by
+        rcases Nat.eq_zero_or_pos o.numSegments with h | h
+        · rw [(numSegments_eq_zero_iff o).1 h] at heo; cases heo
+        · exact h
+      have e0 : o'.segmentAt 0 = Seg.aff k d (o.segmentAt 0) := ho.seg 0 h0
+      rw [find?_congr' _ (fun j => (l.segmentAt j).containsSeg (o.segmentAt 0)) _ (fun j hj => by
+        have hj := List.mem_range.1 hj
+        have e1 : l'.segmentAt j = Seg.aff k d (l.segmentAt j) := hl.seg j hj
+        rw [e1, e0, containsSeg_seg_aff hk])]
+      cases hf : (List.range l.numSegments).find? (fun j => (l.segmentAt j).containsSeg (o.segmentAt 0)) with
+      | none => rfl
+      | some segIdx =>
+        have hmem := List.mem_range.1 (List.mem_of_find?_eq_some hf)
+        exact walk_sim hk hl ho _ ⟨segIdx, 1, 0⟩ hmem
+
+theorem line_containsLine_sim {d : Pt} {l l' o o' : Line} (hl : SerSim k d l l')
+    (ho : SerSim k d o o') : l'.containsLine o' = l.containsLine o := by
+  unfold Line.containsLine; rw [line_containsLineO_sim hk hl ho]
+
+theorem line_intersectsLine_sim {d : Pt} {l l' o o' : Line} (hl : SerSim k d l l')
+    (ho : SerSim k d o o') : l'.intersectsLine o' = l.intersectsLine o := by
+  have hle : l'.empty = l.empty := hl.empty
+  have hoe : o'.empty = o.empty := ho.empty
+  have hln : l'.numSegments = l.numSegments := hl.nseg
+  have hon : o'.numSegments = o.numSegments := ho.nseg
+  have hlp : l'.numPoints = l.numPoints := hl.npts
+  have hop : o'.numPoints = o.numPoints := ho.npts
+  unfold Line.intersectsLine
+  rw [hle, hoe, hlp, hop]
+  cases he : l.empty with
+  | true => simp only [Bool.true_or, if_true]
+  | false =>
+    cases heo : o.empty with
+    | true => simp only [Bool.or_true, if_true]
+    | false =>
+      have hlr : l'.rect = Box.aff k d l.rect := hl.rect he
+      have hor : o'.rect = Box.aff k d o.rect := ho.rect heo
+      rw [hlr, hor, show (Box.aff k d l.rect).intersects (Box.aff k d o.rect)
+        = l.rect.intersects o.rect from intersects_aff hk d _ _]
+      by_cases hg : l.numPoints > o.numPoints
+      · simp only [hg, if_true, Bool.or_self, Bool.false_eq_true, if_false]
+        rw [hon, any_range_congr o.numSegments _ (fun i =>
+          (Ring.ser l).searchAny (o.segmentAt i).box (fun segB _ => (o.segmentAt i).intersects segB))
+          (fun i hi => by
+            have e1 : o'.segmentAt i = Seg.aff k d (o.segmentAt i) := ho.seg i hi
+            simp only [e1, segBox_aff' hk]
+            exact searchAny_sim hk hl _ _ _ (fun j _ => intersects_seg_aff hk d _ _))]
+      · simp only [hg, if_false, Bool.or_self, Bool.false_eq_true]
+        rw [hln, any_range_congr l.numSegments _ (fun i =>
+          (Ring.ser o).searchAny (l.segmentAt i).box (fun segB _ => (l.segmentAt i).intersects segB))
+          (fun i hi => by
+            have e1 : l'.segmentAt i = Seg.aff k d (l.segmentAt i) := hl.seg i hi
+            simp only [e1, segBox_aff' hk]
+            exact searchAny_sim hk ho _ _ _ (fun j _ => intersects_seg_aff hk d _ _))]
+
+end
+
+/-! ### polygons -/
+
+/-- a polygon and its image: exteriors related (or both `nil`), holes related pairwise -/
+structure PolySim (k : Rat) (d : Pt) (p p' : Poly) : Prop where
+  ext : match p.ext, p'.ext with
+    | none, none => True
+    | some e, some e' => RingSim k d e e'
+    | _, _ => False
+  holes : List.Forall₂ (RingSim k d) p.holes p'.holes
+
+theorem any_forall₂ {α β : Type} {R : α → β → Prop} (f : α → Bool) (g : β → Bool)
+    (h : ∀ a b, R a b → g b = f a) {l : List α} {l' : List β} (hl : List.Forall₂ R l l') :
+    l'.any g = l.any f := by
+  induction hl with
+  | nil => rfl
+  | cons hab _ ih => simp only [List.any_cons, h _ _ hab, ih]
+
+theorem all_forall₂ {α β : Type} {R : α → β → Prop} (f : α → Bool) (g : β → Bool)
+    (h : ∀ a b, R a b → g b = f a) {l : List α} {l' : List β} (hl : List.Forall₂ R l l') :
+    l'.all g = l.all f := by
+  induction hl with
+  | nil => rfl
+  | cons hab _ ih => simp only [List.all_cons, h _ _ hab, ih]
+
+section
+variable {k : Rat} (hk : 0 < k)
+include hk
+
+omit hk in
+theorem polySim_cases {d : Pt} {p p' : Poly} (h : PolySim k d p p') :
+    (p.ext = none ∧ p'.ext = none) ∨ ∃ e e', p.ext = some e ∧ p'.ext = some e' ∧ RingSim k d e e' := by
+  have := h.ext
+  rcases h1 : p.ext with _ | e <;> rcases h2 : p'.ext with _ | e' <;> rw [h1, h2] at this
+  · exact Or.inl ⟨rfl, rfl⟩
+  · exact this.elim
+  · exact this.elim
+  · exact Or.inr ⟨e, e', rfl, rfl, this⟩
+
+omit hk in
+theorem poly_empty_sim {d : Pt} {p p' : Poly} (h : PolySim k d p p') : p'.empty = p.empty := by
+  rcases polySim_cases h with ⟨h1, h2⟩ | ⟨e, e', h1, h2, hs⟩
+  · simp only [Poly.empty, h1, h2]
+  · simp only [Poly.empty, h1, h2, hs.empty]
+
+omit hk in
+theorem poly_rect_sim {d : Pt} {p p' : Poly} (h : PolySim k d p p') (he : p.empty = false) :
+    p'.rect = Box.aff k d p.rect := by
+  rcases polySim_cases h with ⟨h1, h2⟩ | ⟨e, e', h1, h2, hs⟩
+  · simp [Poly.empty, h1] at he
+  · simp only [Poly.empty, h1] at he
+    simp only [Poly.rect, h1, h2, hs.rect he]
+
+theorem poly_containsPoint_sim {d : Pt} {p p' : Poly} (h : PolySim k d p p') (q : Pt) :
+    p'.containsPoint (Pt.aff k d q) = p.containsPoint q := by
+  rcases polySim_cases h with ⟨h1, h2⟩ | ⟨e, e', h1, h2, hs⟩
+  · simp only [Poly.containsPoint, h1, h2]
+  · simp only [Poly.containsPoint, h1, h2, ringContainsPoint_sim hk hs]
+    rw [any_forall₂ (fun hh => (ringContainsPoint hh q false).hit) _
+      (fun a b hab => by rw [ringContainsPoint_sim hk hab]) h.holes]
+
+theorem poly_containsLine_sim {d : Pt} {p p' : Poly} {l l' : Line} (h : PolySim k d p p')
+    (hl : SerSim k d l l') : p'.containsLine l' = p.containsLine l := by
+  rcases polySim_cases h with ⟨h1, h2⟩ | ⟨e, e', h1, h2, hs⟩
+  · simp only [Poly.containsLine, h1, h2]
+  · simp only [Poly.containsLine, h1, h2, ringContainsLine_sim hk hs hl]
+    rw [any_forall₂ (fun hh => ringIntersectsLine hh l false) _
+      (fun a b hab => by rw [ringIntersectsLine_sim hk hab hl]) h.holes]
+
+theorem poly_intersectsLine_sim {d : Pt} {p p' : Poly} {l l' : Line} (h : PolySim k d p p')
+    (hl : SerSim k d l l') : p'.intersectsLine l' = p.intersectsLine l := by
+  rcases polySim_cases h with ⟨h1, h2⟩ | ⟨e, e', h1, h2, hs⟩
+  · simp only [Poly.intersectsLine, h1, h2]
+  · simp only [Poly.intersectsLine, h1, h2, ringIntersectsLine_sim hk hs hl]
+    rw [any_forall₂ (fun hh => ringContainsLine hh l false) _
+      (fun a b hab => by rw [ringContainsLine_sim hk hab hl]) h.holes]
+
+theorem poly_containsPoly_sim {d : Pt} {p p' o o' : Poly} (h : PolySim k d p p')
+    (ho : PolySim k d o o') : p'.containsPoly o' = p.containsPoly o := by
+  rcases polySim_cases h with ⟨h1, h2⟩ | ⟨e, e', h1, h2, hs⟩
+  · simp only [Poly.containsPoly, h1, h2]
+  · rcases polySim_cases ho with ⟨g1, g2⟩ | ⟨f, f', g1, g2, gs⟩
+    · simp only [Poly.containsPoly, h1, h2, g1, g2]
+    · simp only [Poly.containsPoly, h1, h2, g1, g2, ringContainsRing_sim hk hs gs]
+      rw [all_forall₂ (fun polyHole =>
+          if ringIntersectsRing polyHole f false then
+            o.holes.any (fun otherHole => ringContainsRing otherHole polyHole true)
+          else true) _
+        (fun a b hab => by
+          rw [ringIntersectsRing_sim hk hab gs,
+            any_forall₂ (fun otherHole => ringContainsRing otherHole a true) _
+              (fun a2 b2 hab2 => by rw [ringContainsRing_sim hk hab2 hab]) ho.holes]) h.holes]
+
+theorem poly_intersectsPoly_sim {d : Pt} {p p' o o' : Poly} (h : PolySim k d p p')
+    (ho : PolySim k d o o') : p'.intersectsPoly o' = p.intersectsPoly o := by
+  rcases polySim_cases h with ⟨h1, h2⟩ | ⟨e, e', h1, h2, hs⟩
+  · simp only [Poly.intersectsPoly, h1, h2]
+  · rcases polySim_cases ho with ⟨g1, g2⟩ | ⟨f, f', g1, g2, gs⟩
+    · simp only [Poly.intersectsPoly, h1, h2, g1, g2]
+    · simp only [Poly.intersectsPoly, h1, h2, g1, g2, ringIntersectsRing_sim hk gs hs]
+      rw [any_forall₂ (fun hh => ringContainsRing hh f false) _
+          (fun a b hab => by rw [ringContainsRing_sim hk hab gs]) h.holes,
+        any_forall₂ (fun hh => ringContainsRing hh e false) _
+          (fun a b hab => by rw [ringContainsRing_sim hk hab hs]) ho.holes]
+
+omit hk in
+theorem polySim_asPoly (d : Pt) (r : Box) : PolySim k d r.asPoly (Box.aff k d r).asPoly :=
+  ⟨ringSim_bx d r, List.Forall₂.nil⟩
+
+end
+
+/-! ### the four kinds -/
+
+/-- the two-point line `Line.containsPoly` builds from the polygon's rectangle -/
+def rectLine (b : Box) : Line := ⟨#[b.min, b.max], false, false, false, b, none⟩
+
+theorem line_containsPoly_eq (line : Line) (poly : Poly) :
+    line.containsPoly poly =
+      if line.empty || poly.empty then false
+      else if poly.rect.min.x ≠ poly.rect.max.x && poly.rect.min.y ≠ poly.rect.max.y then false
+      else line.containsLine (rectLine poly.rect) := rfl
+
+theorem rectLine_sim (k : Rat) (d : Pt) (b : Box) : SerSim k d (rectLine b) (rectLine (Box.aff k d b)) := by
+  refine
+    { un := rfl, un' := rfl, empty := rfl, nseg := rfl, npts := rfl, seg := ?_, pt := ?_,
+      convex := rfl, clockwise := rfl, rect := fun _ => rfl, nseg0 := ?_, inside := ?_ }
+  · intro i hi
+    have hi : i < 1 := hi
+    obtain rfl : i = 0 := by omega
+    rfl
+  · intro i hi
+    have hi : i < 2 := hi
+    rcases i with _ | _ | i
+    · rfl
+    · rfl
+    · omega
+  · intro he; cases he
+  · intro p hp i hi
+    have hi : i < 1 := hi
+    obtain rfl : i = 0 := by omega
+    have hp : b.containsPt p = true := hp
+    rw [containsPt_iff] at hp
+    obtain ⟨a1, a2, a3, a4⟩ := hp
+    have hx : b.min.x ≤ b.max.x := le_trans a1 a2
+    have hy : b.min.y ≤ b.max.y := le_trans a3 a4
+    show b.containsPt b.min = true ∧ b.containsPt b.max = true
+    simp only [containsPt_iff, le_refl, hx, hy, and_self]
+
+section
+variable {k : Rat} (hk : 0 < k)
+include hk
+
+theorem line_containsPoly_sim {d : Pt} {l l' : Line} {p p' : Poly} (hl : SerSim k d l l')
+    (hp : PolySim k d p p') : l'.containsPoly p' = l.containsPoly p := by
+  have hle : l'.empty = l.empty := hl.empty
+  rw [line_containsPoly_eq, line_containsPoly_eq, hle, poly_empty_sim hp]
+  cases he : l.empty with
+  | true => simp only [Bool.true_or, if_true]
+  | false =>
+    cases hpe : p.empty with
+    | true => simp only [Bool.or_true, if_true]
+    | false =>
+      rw [poly_rect_sim hp hpe, line_containsLine_sim hk hl (rectLine_sim k d p.rect)]
+      simp only [Box.aff, aff_x, aff_y, ne_eq, aff_eq hk]
+
+theorem box_aff_inj (d : Pt) (a b : Box) : Box.aff k d a = Box.aff k d b ↔ a = b := by
+  constructor
+  · intro h
+    have h1 := congrArg Box.min h
+    have h2 := congrArg Box.max h
+    simp only [Box.aff, aff_inj hk] at h1 h2
+    cases a; cases b; simp only at h1 h2; rw [h1, h2]
+  · intro h; rw [h]
+
+/-- two geometries related by `p ↦ k·p + d` (all series un-indexed) -/
+inductive GeomSim (k : Rat) (d : Pt) : Geom → Geom → Prop
+  | point (p : Pt) : GeomSim k d (.point p) (.point (Pt.aff k d p))
+  | rect (r : Box) : GeomSim k d (.rect r) (.rect (Box.aff k d r))
+  | line (l l' : Line) : SerSim k d l l' → GeomSim k d (.line l) (.line l')
+  | poly (p p' : Poly) : PolySim k d p p' → GeomSim k d (.poly p) (.poly p')
+
+theorem pt_containsLine_sim {d : Pt} {l l' : Line} (hl : SerSim k d l l') (p : Pt) :
+    (Pt.aff k d p).containsLine l' = p.containsLine l := by
+  have hle : l'.empty = l.empty := hl.empty
+  unfold Pt.containsLine
+  rw [hle]
+  cases he : l.empty with
+  | true => simp only [Bool.not_true, Bool.false_and]
+  | false =>
+    have hlr : l'.rect = Box.aff k d l.rect := hl.rect he
+    simp only [hlr, show (Pt.aff k d p).box = Box.aff k d p.box from rfl, box_aff_inj hk]
+
+theorem pt_containsPoly_sim {d : Pt} {o o' : Poly} (ho : PolySim k d o o') (p : Pt) :
+    (Pt.aff k d p).containsPoly o' = p.containsPoly o := by
+  unfold Pt.containsPoly
+  rw [poly_empty_sim ho]
+  cases he : o.empty with
+  | true => simp only [Bool.not_true, Bool.false_and]
+  | false =>
+    simp only [poly_rect_sim ho he, show (Pt.aff k d p).box = Box.aff k d p.box from rfl, box_aff_inj hk]
+
+theorem box_containsLine_sim {d : Pt} {l l' : Line} (hl : SerSim k d l l') (r : Box) :
+    (Box.aff k d r).containsLine l' = r.containsLine l := by
+  have hle : l'.empty = l.empty := hl.empty
+  unfold Box.containsLine
+  rw [hle]
+  cases he : l.empty with
+  | true => simp only [Bool.not_true, Bool.false_and]
+  | false =>
+    have hlr : l'.rect = Box.aff k d l.rect := hl.rect he
+    rw [hlr, show (Box.aff k d r).containsBox (Box.aff k d l.rect) = r.containsBox l.rect from
+      containsBox_aff hk d _ _]
+
+theorem box_containsPoly_sim {d : Pt} {o o' : Poly} (ho : PolySim k d o o') (r : Box) :
+    (Box.aff k d r).containsPoly o' = r.containsPoly o := by
+  unfold Box.containsPoly
+  rw [poly_empty_sim ho]
+  cases he : o.empty with
+  | true => simp only [Bool.not_true, Bool.false_and]
+  | false =>
+    rw [poly_rect_sim ho he, show (Box.aff k d r).containsBox (Box.aff k d o.rect) = r.containsBox o.rect from
+      containsBox_aff hk d _ _]
+
+theorem geom_contains_sim {d : Pt} {a a' b b' : Geom} (ha : GeomSim k d a a') (hb : GeomSim k d b b') :
+    a'.contains b' = a.contains b := by
+  cases ha with
+  | point p =>
+    cases hb with
+    | point q => simp only [Geom.contains, aff_inj hk]
+    | rect r =>
+      simp only [Geom.contains, Pt.containsRect, show (Pt.aff k d p).box = Box.aff k d p.box from rfl,
+        box_aff_inj hk]
+    | line l l' hl => exact pt_containsLine_sim hk hl p
+    | poly o o' ho => exact pt_containsPoly_sim hk ho p
+  | rect r =>
+    cases hb with
+    | point q => exact containsPt_aff hk d r q
+    | rect r2 => exact containsBox_aff hk d r r2
+    | line l l' hl => exact box_containsLine_sim hk hl r
+    | poly o o' ho => exact box_containsPoly_sim hk ho r
+  | line l l' hl =>
+    cases hb with
+    | point q => exact line_containsPoint_sim hk hl q
+    | rect r2 => exact line_containsPoly_sim hk hl (polySim_asPoly d r2)
+    | line m m' hm => exact line_containsLine_sim hk hl hm
+    | poly o o' ho => exact line_containsPoly_sim hk hl ho
+  | poly p p' hp =>
+    cases hb with
+    | point q => exact poly_containsPoint_sim hk hp q
+    | rect r2 => exact poly_containsPoly_sim hk hp (polySim_asPoly d r2)
+    | line m m' hm => exact poly_containsLine_sim hk hp hm
+    | poly o o' ho => exact poly_containsPoly_sim hk hp ho
+
+theorem geom_intersects_sim {d : Pt} {a a' b b' : Geom} (ha : GeomSim k d a a') (hb : GeomSim k d b b') :
+    a'.intersects b' = a.intersects b := by
+  cases ha with
+  | point p =>
+    cases hb with
+    | point q => simp only [Geom.intersects, aff_inj hk]
+    | rect r => exact containsPt_aff hk d r p
+    | line l l' hl => exact line_containsPoint_sim hk hl p
+    | poly o o' ho => exact poly_containsPoint_sim hk ho p
+  | rect r =>
+    cases hb with
+    | point q => exact containsPt_aff hk d r q
+    | rect r2 => exact intersects_aff hk d r r2
+    | line l l' hl => exact ringIntersectsLine_sim hk (ringSim_bx d r) hl true
+    | poly o o' ho => exact poly_intersectsPoly_sim hk ho (polySim_asPoly d r)
+  | line l l' hl =>
+    cases hb with
+    | point q => exact line_containsPoint_sim hk hl q
+    | rect r2 => exact ringIntersectsLine_sim hk (ringSim_bx d r2) hl true
+    | line m m' hm => exact line_intersectsLine_sim hk hl hm
+    | poly o o' ho => exact poly_intersectsLine_sim hk ho hl
+  | poly p p' hp =>
+    cases hb with
+    | point q => exact poly_containsPoint_sim hk hp q
+    | rect r2 => exact poly_intersectsPoly_sim hk hp (polySim_asPoly d r2)
+    | line m m' hm => exact poly_intersectsLine_sim hk hp hm
+    | poly o o' ho => exact poly_intersectsPoly_sim hk hp ho
+
+end
+
 end EQ
+/-! ### rebuilding a geometry from mapped points (no index) -/
+
+def Series.mapPts (T : Pt → Pt) (s : Series) : Series := mkSeries (s.pts.map T) s.closed .none 0
+def Ring.mapPts (T : Pt → Pt) : Ring → Ring
+  | .ser s => .ser (s.mapPts T)
+  | .bx b => .bx ⟨T b.min, T b.max⟩
+def Poly.mapPts (T : Pt → Pt) (p : Poly) : Poly := ⟨p.ext.map (Ring.mapPts T), p.holes.map (Ring.mapPts T)⟩
+def Geom.mapPts (T : Pt → Pt) : Geom → Geom
+  | .point p => .point (T p)
+  | .rect r => .rect ⟨T r.min, T r.max⟩
+  | .line l => .line (l.mapPts T)
+  | .poly p => .poly (p.mapPts T)
+
+/-- the series is what `mkSeries` builds from its points without index -/
+def Series.Built (s : Series) : Prop := s = mkSeries s.pts s.closed .none 0
+def Ring.Built : Ring → Prop
+  | .ser s => s.Built
+  | .bx _ => True
+def Poly.Built (p : Poly) : Prop := (∀ e, p.ext = some e → e.Built) ∧ ∀ h ∈ p.holes, h.Built
+def Geom.Built : Geom → Prop
+  | .line l => l.Built
+  | .poly p => p.Built
+  | _ => True
+
+theorem mkSeries_built (pts : Array Pt) (closed : Bool) : (mkSeries pts closed .none 0).Built := rfl
+
+namespace EQ
+section
+variable {k : Rat} (hk : 0 < k)
+include hk
+
+theorem serSim_mapPts (d : Pt) (s : Series) (hs : s.Built) : SerSim k d s (s.mapPts (Pt.aff k d)) := by
+  have := ringSim_mk hk d s.pts s.closed
+  rw [← hs] at this
+  exact this
+
+theorem ringSim_mapPts (d : Pt) (r : Ring) (hr : r.Built) : RingSim k d r (r.mapPts (Pt.aff k d)) := by
+  cases r with
+  | ser s => exact serSim_mapPts hk d s hr
+  | bx b => exact ringSim_bx d b
+
+theorem polySim_mapPts (d : Pt) (p : Poly) (hp : p.Built) : PolySim k d p (p.mapPts (Pt.aff k d)) := by
+  refine ⟨?_, ?_⟩
+  · rcases he : p.ext with _ | e
+    · simp only [Poly.mapPts, he, Option.map_none]
+    · simp only [Poly.mapPts, he, Option.map_some]
+      exact ringSim_mapPts hk d e (hp.1 e he)
+  · simp only [Poly.mapPts]
+    have : ∀ l : List Ring, (∀ h ∈ l, h.Built) →
+        List.Forall₂ (RingSim k d) l (l.map (Ring.mapPts (Pt.aff k d))) := by
+      intro l
+      induction l with
+      | nil => intro _; exact List.Forall₂.nil
+      | cons x l ih =>
+        intro hl
+        exact List.Forall₂.cons (ringSim_mapPts hk d x (hl x (by simp)))
+          (ih (fun h hh => hl h (by simp [hh])))
+    exact this p.holes hp.2
+
+theorem geomSim_mapPts (d : Pt) (a : Geom) (ha : a.Built) : GeomSim k d a (a.mapPts (Pt.aff k d)) := by
+  cases a with
+  | point p => exact GeomSim.point p
+  | rect r => exact GeomSim.rect r
+  | line l => exact GeomSim.line l _ (serSim_mapPts hk d l ha)
+  | poly p => exact GeomSim.poly p _ (polySim_mapPts hk d p ha)
+
+end
+end EQ
+
 end Geo
